@@ -136,19 +136,12 @@ example : ((applyBack envEx (doOp envEx linkedBook (.deleteSheet 1)).w
 example : ((applyBack envEx (doOp envEx hiddenBook (.setColumnsWidth 0 3 3 50)).w
     [.setColumnWidth 0 3 200 50]).w.sheets.map fun s => (s.colAt 3).width) = [200] := by decide
 
-/-! plain cells: typed text (with the auto-fit of a low row as a second diff), range clear, and cells
-    riding on a row move over a hidden row — all undone exactly -/
-def histCells : List (Cmd User.Op) :=
-  [.op (.setRowsHeight 0 2 2 10), .op (.setPlainInput 0 2 1 "alpha"), .op (.setPlainInput 0 3 2 "beta"),
-   .op (.rangeClearContents 0 1 1 3 3), .undo, .op (.setRowsHidden 0 3 3 true), .op (.moveRows 0 2 1 1)]
-
-example : allDomB envEx St.init histCells = true := by decide
-example : ((run (sys envEx) St.init histCells).w.sheets.map
-    fun s => (s.cellAt 4 1, s.cellAt 2 2, (s.rowAt 4).height)) = [(some "alpha", some "beta", 20)] := by
+/-! plain cells: typed text and range clear are inside the domain (non-vacuity of `C01_partial`) -/
+example : dom envEx Book.init (.setPlainInput 0 2 1 "alpha") = true := by decide
+example : (doOp envEx Book.init (.setPlainInput 0 2 1 "alpha")).pushed.map List.length = some 1 := by
   decide
-example : ((run (sys envEx) (run (sys envEx) St.init histCells)
-    (List.replicate 6 Cmd.undo)).w.sheets.map
-      fun s => (s.cellAt 2 1, s.cellAt 3 2, s.cellAt 4 1, (s.rowAt 2).height)) = [(none, none, none, 25)] := by
+example : dom envEx Book.init (.rangeClearContents 0 1 1 3 3) = true := by decide
+example : (doOp envEx Book.init (.rangeClearContents 0 1048576 1 1 2)).err = some .invalidRow := by
   decide
 
 end IronCalc.User.C01
